@@ -168,7 +168,7 @@ def run_kernels(ctx, ev):
         uniq.setdefault((k['routine'], a), None)
     mkeys = sorted(uniq)
     mo = vlib.run_robust(vlib.model_cmd(), ['kern %s 0 %s' % (r, a) for r, a in mkeys], timeout=3000, died='MODEL-DIED')
-    for key, o in zip(mkeys, mo): uniq[key] = o.strip()
+    for key, o in zip(mkeys, mo): uniq[key] = '' if vlib.timed_out(ctx, o) else o.strip()
     gen_out = {}
     for (k, a), o in zip(owner, io):
         if k['dir'] == 'generic-C': gen_out[(k['routine'], a)] = o.strip()
@@ -180,7 +180,7 @@ def run_kernels(ctx, ev):
     co = vlib.run_robust(vlib.model_cmd(), cert, timeout=900, died='MODEL-DIED') if cert else []
     modexact_ok = {}
     for (k, a, ln, o), m in zip(cert_owner, co):
-        modexact_ok[(k['idx'], a)] = m.strip() == '1'
+        if not vlib.timed_out(ctx, m): modexact_ok[(k['idx'], a)] = m.strip() == '1'
     n_model = n_gen = n_bad = 0; seen_bad = {}; untested = set(); sigill = set()
     per_kernel_cases = {}
     for (k, a), ln, o in zip(owner, lines, io):
